@@ -53,7 +53,10 @@ pub fn generate(prop: &str, tier: &str, seed: u64, outdir: &str) {
         "C01" | "C03" | "C05" | "C08" => gen_hist_prop(prop, &mut out, &mut rng, thorough),
         "C12" => gen_c12(&mut out, &mut rng, thorough),
         "C16" => gen_c16(&mut out, &mut rng, thorough),
-        "C09" => gen_c09(&mut out, &mut rng, thorough),
+        "C09" => {
+            gen_c09(&mut out, &mut rng, thorough);
+            gen_fk_directed(&mut out, &mut rng, if thorough { 60 } else { 6 });
+        }
         "C02" => gen_c02(&mut out, &mut rng, thorough),
         "C15" => {
             let scripts: Vec<usize> = if thorough { (0..crate::faults::NUM_SCRIPTS).collect() } else { vec![0, 1, 2, 4, 5, 6, 7, 8, 9] };
@@ -1218,6 +1221,22 @@ fn gen_pages_directed(out: &mut Out, rng: &mut Rng, rounds: usize) {
 /// referencing table's definition must survive, in memory and after reopening
 fn gen_fk_directed(out: &mut Out, rng: &mut Rng, n: usize) {
     let k = hex_of_str("K");
+    // a foreign-key annotation is a name and a number: the number may exceed the columns the named
+    // table has, name a table that does not exist, or point at the table itself
+    for (ci, kc) in [1i32, 2, 3, 5, 32].iter().enumerate() {
+        out.req("new", format!("new {}", ci % 3));
+        let a = hex_of_str("A");
+        let b = hex_of_str("B");
+        out.req("create_table", format!("create_table {a} {k}:s32:K:-:-:Identifier:- {}:i16:N:-:-:-:-", hex_of_str("V")));
+        out.req("insert", format!("insert {a} 2 2 S{} I1 2 S{} N", hex_of_str("Main"), hex_of_str("Extra")));
+        out.req("create_table", format!("create_table {b} {k}:i16:K:-:-:-:- {}:s32:N:-:{a},{kc}:Identifier:- {}:s8:N:-:{},{kc}:-:-", hex_of_str("Ref"), hex_of_str("Self"), b));
+        out.req("insert", format!("insert {b} 2 3 I1 S{} N 3 I2 S{} S{}", hex_of_str("Main"), hex_of_str("Nowhere"), hex_of_str("x")));
+        out.req("snapshot", "snapshot".into());
+        out.req("reopen", format!("reopen {}", crate::hist::CLOSE_MODES[ci % 3]));
+        out.req("insert", format!("insert {b} 1 3 I3 S{} N", hex_of_str("Extra")));
+        out.req("update", format!("update {b} 1 {} S{} -", hex_of_str("Ref"), hex_of_str("Main")));
+        out.req("snapshot", "snapshot".into());
+    }
     for case in 0..n {
         out.req("new", format!("new {}", rng.below(3)));
         let a = hex_of_str("A");
@@ -1374,6 +1393,26 @@ fn gen_hist_prop(prop: &str, out: &mut Out, rng: &mut Rng, thorough: bool) {
             gen_catalog_edits_directed(out, rng, if thorough { 200 } else { 16 });
             gen_signed_rejected_directed(out, rng, if thorough { 120 } else { 12 });
             gen_limits_repeated_values(out);
+            // the catalog's description of `_Validation` ITSELF altered by hand, then the package
+            // reopened (so that the altered definition is the one in force): known finding D26
+            {
+                let val = hex_of_str("_Validation");
+                let cond = |col: &str| format!("and eq C{} S{val} eq C{} S{}", hex_of_str("Table"), hex_of_str("Column"), hex_of_str(col));
+                out.req("new", "new 0".into());
+                out.req("catalog_edit", format!("update {val} 1 {} I16 {}", hex_of_str("MaxValue"), cond("KeyColumn")));
+                out.req("reopen", "reopen into_inner".into());
+                out.req("snapshot", "snapshot".into());
+                out.req("d26", format!("create_table {} {}:i32:K:-:-:-:- {}:s32:N:-:{},20:Identifier:-", hex_of_str("D26Links"), hex_of_str("Key"), hex_of_str("Ref"), hex_of_str("Other")));
+                out.req("snapshot", "snapshot".into());
+                out.req("new", "new 0".into());
+                out.req("create_table", format!("create_table {} {}:s8:K:-:-:-:-", hex_of_str("D26Files"), hex_of_str("Name")));
+                out.req("insert", format!("insert {} 1 1 S{}", hex_of_str("D26Files"), hex_of_str("a.txt")));
+                out.req("catalog_edit", format!("update {} 1 {} S{} and eq C{} S{val} eq C{} I1", hex_of_str("_Columns"), hex_of_str("Name"), hex_of_str("Tbl"), hex_of_str("Table"), hex_of_str("Number")));
+                out.req("reopen", "reopen into_inner".into());
+                out.req("snapshot", "snapshot".into());
+                out.req("d26", format!("drop_table {}", hex_of_str("D26Files")));
+                out.req("snapshot", "snapshot".into());
+            }
             // a database without a `_Validation` table (fix D24)
             for (bi, b) in c09_bases().iter().enumerate().skip(1) {
                 for order in 0..2 {
@@ -1551,8 +1590,31 @@ fn gen_c12_sessions(out: &mut Out, rng: &mut Rng, sessions: usize, per: usize) {
         db.tables.insert(n, t);
         let (n, t) = mk("C3", "V", out, rng);
         db.tables.insert(n, t);
+        // two tables of text whose equal strings need not share one pool entry: an early entry is
+        // freed (its row deleted), then a text that already sits further back is stored again
+        {
+            let mut k = ColDef::new("K", CT::I16);
+            k.key = true;
+            let mut s = ColDef::new("S", CT::Str(0));
+            s.nullable = true;
+            let cols = vec![k, s];
+            for name in ["P", "Q"] {
+                out.req("create_table", format!("create_table {} {} {}", hex_of_str(name), cols[0].tok(), cols[1].tok()));
+            }
+            out.req("insert", format!("insert {} 3 2 I1 S{} 2 I2 S{} 2 I3 S{}", hex_of_str("P"), hex_of_str("only once"), hex_of_str("shared"), hex_of_str("other")));
+            out.req("delete", format!("delete {} eq C{} I1", hex_of_str("P"), hex_of_str("K")));
+            out.req("insert", format!("insert {} 2 2 I1 S{} 2 I2 S{}", hex_of_str("Q"), hex_of_str("shared"), hex_of_str("other")));
+            if sidx % 2 == 1 {
+                out.req("reopen", format!("reopen {}", crate::hist::CLOSE_MODES[sidx % 3]));
+            }
+            db.tables.insert("P".into(), RefTable { cols: cols.clone(), rows: vec![vec![V::Int(2), V::Str("shared".into())], vec![V::Int(3), V::Str("other".into())]] });
+            db.tables.insert("Q".into(), RefTable { cols, rows: vec![vec![V::Int(1), V::Str("shared".into())], vec![V::Int(2), V::Str("other".into())]] });
+            for j in ["IJ", "LJ"] {
+                out.req("text_join", format!("select SEL 0 - {j} SEL 0 - T {} SEL 0 - T {} eq C{} C{}", hex_of_str("P"), hex_of_str("Q"), hex_of_str("P.S"), hex_of_str("Q.S")));
+            }
+        }
         out.req("snapshot", "snapshot".into());
-        let tables = ["A", "B", "C3"];
+        let tables = ["A", "B", "C3", "P", "Q"];
         for _ in 0..per {
             let d = rng.below(4) as usize;
             let sel = c12_tree(rng, d, &db, &tables);
@@ -1982,6 +2044,15 @@ fn gen_c16_full_pool(out: &mut Out, rng: &mut Rng) {
 
 fn gen_c16(out: &mut Out, rng: &mut Rng, thorough: bool) {
     gen_c16_full_pool(out, rng);
+    // databases of another writer (three-byte references, no `_Validation` table, unused entries)
+    for b in c09_bases().iter() {
+        for mode in crate::hist::CLOSE_MODES {
+            out.req("load", format!("load 0 {}", entries_tok(b)));
+            out.req("ro_select", format!("select SEL 0 - T {}", hex_of_str("T")));
+            out.req("ro_snapshot", "snapshot".into());
+            out.req("readonly_close", format!("@readonly_close {mode}"));
+        }
+    }
     let cfg = crate::hist::HistCfg {
         sessions: 0, max_steps: 12, non_ascii: true, streams: true, summary: true, invalid: false,
         key_updates: false, reopen: false, raw: false, selects: false,
@@ -2049,7 +2120,8 @@ fn gen_c16(out: &mut Out, rng: &mut Rng, thorough: bool) {
 fn gen_gate_sessions(out: &mut Out, rng: &mut Rng, thorough: bool) {
     let n = if thorough { 3000 } else { 200 };
     let cats = ["Identifier", "Property", "UpperCase", "LowerCase", "Integer", "DoubleInteger", "Guid", "Version", "Language", "Cabinet", "Text"];
-    let strs = ["", "a", "A", "Id_1", "%Id", "9x", "12", "-7", "+7", "32768", "1.2.3", "1.2.3.4.5", "1033,1041", "{34AB5C53-9B30-4E14-AEF0-2C1C7BA826C0}", "file.txt", "#Cab", "toolongname.text", "\u{e9}\u{e9}\u{e9}\u{e9}\u{e9}.txt", "Zed", "b"];
+    let strs = ["", "a", "A", "Id_1", "%Id", "9x", "12", "-7", "+7", "32768", "1.2.3", "1.2.3.4.5", "1033,1041", "{34AB5C53-9B30-4E14-AEF0-2C1C7BA826C0}", "file.txt", "#Cab", "toolongname.text", "\u{e9}\u{e9}\u{e9}\u{e9}\u{e9}.txt", "Zed", "b",
+        " lead", "trail ", "lead", "trail", " ", "plain", "in side"];
     for _ in 0..n {
         out.req("new", "new 0".into());
         let mut k = ColDef::new("K", CT::I16);
@@ -2070,6 +2142,9 @@ fn gen_gate_sessions(out: &mut Out, rng: &mut Rng, thorough: bool) {
                     }
                     if rng.chance(1, 5) {
                         c.enums = vec!["a".into(), "Zed".into(), "12".into()];
+                    } else if rng.chance(1, 8) {
+                        // listed values with blanks at either end are values like any other
+                        c.enums = vec![" lead".into(), "trail ".into(), "in side".into(), " ".into(), "plain".into()];
                     }
                 }
                 _ => {
@@ -2128,6 +2203,12 @@ fn gen_gate_sessions(out: &mut Out, rng: &mut Rng, thorough: bool) {
             if rng.chance(1, 3) {
                 out.req("snapshot", "snapshot".into());
             }
+            if rng.chance(1, 9) {
+                // the same gate in a later session, on the definition rebuilt from the file
+                out.req("snapshot", "snapshot".into());
+                out.req("reopen", format!("reopen {}", rng.pick(&crate::hist::CLOSE_MODES)));
+                out.req("snapshot", "snapshot".into());
+            }
         }
         out.req("snapshot", "snapshot".into());
         if rng.chance(1, 3) {
@@ -2142,7 +2223,10 @@ fn gen_gate_sessions(out: &mut Out, rng: &mut Rng, thorough: bool) {
 
 fn gen_stream_sessions(out: &mut Out, rng: &mut Rng, thorough: bool) {
     let n = if thorough { 3000 } else { 250 };
-    let names = ["logo", "Icon.1", "bin data", "x", "\u{4e2d}\u{6587}", "A_very_long_stream_name_012345", "__init__", "xy__z", "__", "a.b_c", "UPPER", "upper", "N1", "n1", "s p a c e", "\u{5}Odd", "t\u{4840}t"];
+    // (the last four: spellings that are one name to the container - same length, same upper-cased
+    // text in the characters the encoding leaves alone)
+    let plain_names = ["logo", "Icon.1", "bin data", "x", "\u{4e2d}\u{6587}", "A_very_long_stream_name_012345", "__init__", "xy__z", "__", "a.b_c", "UPPER", "upper", "N1", "n1", "s p a c e", "\u{5}Odd", "t\u{4840}t"];
+    let folding_names = ["logo", "x", "\u{fc}n\u{ef}code-1", "\u{dc}n\u{cf}code-1", "\u{fc}", "\u{dc}", "N1", "n1", "caf\u{e9}-x", "caf\u{c9}-x"];
     let bad = ["", "a/b", "a\\b", "a:b", "a!b", "\u{4840}T", "\u{3800}", "\u{47ff}x", "this_name_is_far_too_long_to_fit_into_a_compound_file_directory_entry", "\u{5}SummaryInformation", "_StringPool", "."];
     let sizes = [0usize, 1, 26, 63, 64, 65, 4095, 4096, 4097, 6000, 8192, 9000];
     // names far beyond the limit, with characters of every UTF-8 width at every byte alignment
@@ -2201,8 +2285,15 @@ fn gen_stream_sessions(out: &mut Out, rng: &mut Rng, thorough: bool) {
             out.req("raw", "raw".into());
         }
     }
-    for _ in 0..n {
+    for si in 0..n {
         out.req("new", format!("new {}", rng.below(3)));
+        // one session in ten uses spellings that are ONE name to the container (same length, same
+        // upper-cased text in the letters the encoding leaves alone); the model folds ASCII case
+        // only, so these sessions are decided by the oracle on the real code alone
+        let names: &[&str] = if si % 10 == 9 { &folding_names } else { &plain_names };
+        if si % 10 == 9 {
+            out.req("oracle_only", "oracle_only_session".into());
+        }
         if rng.chance(1, 3) {
             out.req("create_table", format!("create_table {} 4b:i16:K:-:-:-:- 56:s0:N:-:-:-:-", hex_of_str("T")));
         }
@@ -2213,7 +2304,7 @@ fn gen_stream_sessions(out: &mut Out, rng: &mut Rng, thorough: bool) {
                 let len = 30 + rng.below(300) as usize;
                 (0..len).map(|_| *rng.pick(&['a', '.', '\u{e9}', '\u{65e5}', '\u{1f600}', 'Z'])).collect()
             } else {
-                rng.pick(&names).to_string()
+                rng.pick(names).to_string()
             };
             let h = hex_of_str(&name);
             match rng.below(12) {
@@ -2719,6 +2810,20 @@ fn gen_c02(out: &mut Out, rng: &mut Rng, thorough: bool) {
         out.req("snapshot", "snapshot".into());
         if case % 2 == 0 {
             out.req("ffi", "@ffi_check".into());
+        }
+        // rows of a foreign file keep their file order (here often reversed): a condition on the
+        // key picks the rows it is true for, wherever they lie
+        for (ti, tb) in tables.iter().enumerate().take(2) {
+            let keys: Vec<usize> = tb.cols.iter().enumerate().filter(|(_, c)| c.key).map(|(i, _)| i).collect();
+            if keys.len() == 1 && (case + ti) % 2 == 0 {
+                let ki = keys[0];
+                for row in tb.rows.iter().take(4) {
+                    let e = E::Bin("eq", Box::new(E::Col(tb.cols[ki].name.clone())), Box::new(E::Lit(row[ki].clone())));
+                    out.req("key_select", format!("select SEL 0 {} T {}", e.to_line(), hex_of_str(&tb.name)));
+                    let e2 = E::Bin("eq", Box::new(E::Lit(row[ki].clone())), Box::new(E::Col(tb.cols[ki].name.clone())));
+                    out.req("key_select", format!("select SEL 0 {} T {}", e2.to_line(), hex_of_str(&tb.name)));
+                }
+            }
         }
         if case % 5 == 2 {
             // table creation and removal on a database that may have no `_Validation` table
